@@ -494,6 +494,9 @@ func checkBoxTx(txdata []byte, chainID uint16, txTime, nowTime uint64, isBlockTx
 	// 遍历子交易并验证
 	appearedSubTxs := make(map[common.Hash]struct{}, len(box.SubTxList))
 	for _, subTx := range box.SubTxList {
+		if subTx == nil {
+			return ErrVerifyBoxTx
+		}
 		// A sub transaction could be executed only once
 		if _, ok := appearedSubTxs[subTx.Hash()]; ok {
 			log.Errorf("Sub transaction is appeared twice in box. subTx hash: %s", subTx.Hash().Hex())
